@@ -36,6 +36,8 @@ def check_property(pid, tier="quick", seed=0, write_baseline=False):
     reg = Registry().load_dir(CONTRACT_DIR)
     cache = Cache(hashlib.sha256((tree_sha(repo.root) + engine_sha()).encode()).hexdigest())
     timeout_ms = 60000 if tier == "quick" else 180000
+    if tier == "thorough":
+        os.environ.setdefault("NUCSVC_UNROLL_SECONDS", "14400")  # e.g. alldifferent at arity 3 needs about 70 minutes on one core
     lines = []
     verdict = dict(violations=[], undecided=[], errors=[], known=[], degraded=[])
     fns = sorted(q for q, c in reg.contracts.items() if pid in c.props)
